@@ -145,6 +145,12 @@ def base_facts(c):
 
 def prove_axiom(name, text, timeout_s=30):
     t0 = time.time()
+    import re
+    mk = re.fullmatch(r'pow2p\((\d+)\)', text.strip())
+    if mk:      # a literal: decided by evaluation
+        v = int(mk.group(1)); ok = v >= 1 and v & (v - 1) == 0
+        return {'oid': 'axiom::%s' % name, 'status': 'proved' if ok else 'unknown', 'backend': 'fold', 'mode': 'evaluation', 'seconds': 0.0,
+                'reason': None if ok else 'not a power of two', 'function': 'contracts/fpnum.py::AXIOMS'}
     try:
         goal, c = build(text)
     except Exception as e:
